@@ -148,3 +148,20 @@ Proof.
       assert (list_eqb (rlp_uint i) k = false) as ->; [|reflexivity]. apply list_eqb_neq. intro E. apply (Hd i); [lia|lia|symmetry; exact E]. }
     rewrite Gen; [reflexivity|]. intros j _ Hj. apply Hne. lia.
 Qed.
+
+(* ---- copies ------------------------------------------------------------------------ *)
+
+(* an operation on one handle leaves every other handle as it was; a copy starts
+   as its source and leaves all existing handles as they were *)
+Lemma copies_independent :
+  (forall hs j op i, i <> j -> nth i (h_apply hs (HOp j op)) Empty = nth i hs Empty) /\
+  (forall hs j i, (i < length hs)%nat -> nth i (h_apply hs (HCopy j)) Empty = nth i hs Empty) /\
+  (forall hs j, nth (length hs) (h_apply hs (HCopy j)) Empty = nth j hs Empty) /\
+  (forall hs j op, (j < length hs)%nat -> nth j (h_apply hs (HOp j op)) Empty = apply_op (nth j hs Empty) op).
+Proof.
+  repeat split.
+  - intros hs j op i Hne. cbn [h_apply]. apply nth_set_nth_neq. exact Hne.
+  - intros hs j i Hi. cbn [h_apply]. apply app_nth1. exact Hi.
+  - intros hs j. cbn [h_apply]. rewrite app_nth2 by lia. rewrite Nat.sub_diag. reflexivity.
+  - intros hs j op Hj. cbn [h_apply]. apply nth_set_nth_eq. exact Hj.
+Qed.
